@@ -71,6 +71,7 @@ def hygiene():
                 continue
             p = os.path.join(root, f)
             src = strip_comments(open(p).read())
+            src = re.sub(r'"(?:[^"]|"")*"', '""', src)      # Coq string literals cannot declare anything
             depth = 0
             for n, line in enumerate(src.split('\n'), 1):
                 if FORBIDDEN.search(line):
@@ -241,6 +242,59 @@ def run_cases(prop, requires, terms, shard=300, timeout=900, tag='cases'):
             for tok in re.findall(r'-?\d+', body):
                 failing.append(k + int(tok))
     return sorted(failing)
+
+
+def parse_nested(txt):
+    """Parse Coq's printing of a `list (list Z)` value: ` = [[1; -2]; []] : list (list Z)`."""
+    m = re.search(r'=\s*(\[.*\])\s*:\s*list \(list Z\)', txt, re.S)
+    if not m:
+        return None
+    body = m.group(1)
+    out, cur, depth = [], None, 0
+    for tok in re.findall(r'\[|\]|-?\d+', body):
+        if tok == '[':
+            depth += 1
+            if depth == 2:
+                cur = []
+        elif tok == ']':
+            if depth == 2:
+                out.append(cur)
+                cur = None
+            depth -= 1
+        else:
+            cur.append(int(tok))
+    return out
+
+
+def run_exprs(prop, requires, exprs, shard=150, timeout=900, tag='outs'):
+    """exprs: Coq expressions of type `list Z`.  Evaluates them with vm_compute inside coqc and
+    returns the list of integer lists (the model's outputs), in order."""
+    wd = os.path.join(WORK, prop)
+    os.makedirs(wd, exist_ok=True)
+    for f in os.listdir(wd):
+        if f.startswith(tag + '_'):
+            os.unlink(os.path.join(wd, f))
+    jobs = []
+    for k in range(0, len(exprs), shard):
+        path = os.path.join(wd, f'{tag}_{k // shard}.v')
+        with open(path, 'w') as f:
+            f.write('From PV Require Import ' + ' '.join(requires) + '.\n')
+            f.write('Open Scope Z_scope.\n')
+            f.write('Definition es : list (list Z) := [\n')
+            f.write(';\n'.join(f'({e})' for e in exprs[k:k + shard]))
+            f.write('\n].\nSet Printing Width 1000000.\nSet Printing Depth 100000000.\nEval vm_compute in es.\n')
+        jobs.append((k, path))
+    res = []
+    with cf.ThreadPoolExecutor(NCPU) as ex:
+        for (k, path), (_, rc, out) in zip(jobs, ex.map(_run_shard, [(p, timeout) for _, p in jobs])):
+            if rc != 0:
+                raise MachineryError(f'coqc failed on generated {path}:\n{out[-3000:]}')
+            vals = parse_nested(out)
+            n = min(shard, len(exprs) - k)
+            if vals is None or len(vals) != n:
+                raise MachineryError(f'cannot parse coqc output for {path} (got {None if vals is None else len(vals)} of {n})')
+            res.extend(vals)
+    return res
 
 
 def coq_eval(prop, requires, expr, timeout=300):
